@@ -4,6 +4,7 @@
 From Coq Require Import List Arith Bool Reals.
 From TLV Require Import Base.Ops Base.Tensor Base.RSum Model.Svd Proofs.SvdProofsAux Proofs.SvdProofs.
 Import ListNotations.
+Local Open Scope nat_scope.
 
 (* --- n_eigenvecs clamping and output shapes: every matrix shape, every request (None, 0, > max(shape)) --- *)
 Theorem C05_svd_checks_clamp : forall d1 d2 n,
